@@ -82,7 +82,7 @@ def encJob (j : Job) : List Nat :=
 def EencJob (e : EJob) : List Nat := [e.base, e.idx, e.left, b2n e.ok, b2n e.corrupt]
 def encOSt : OSt → Nat | .more => 0 | .ok => 1 | .err => 2
 def encOB (o : OB) : List Nat := [o.base, o.idx, encOSt o.st, b2n o.corrupt]
-def encUB (u : UB) : List Nat := [u.base, b2n u.corrupt] ++ encUF u.f
+def encUB (u : UB) : List Nat := [u.base, b2n u.corrupt, b2n u.dropped] ++ encUF u.f
 def encPhase : Phase → List Nat
   | .retr j k => 0 :: o2n k :: encJob j
   | .retr2 e => 1 :: EencJob e
